@@ -1,8 +1,11 @@
-(* Decision translator — the Coq side of the table: for every site of the Go source
-   (coq/Gen/ActionDecisions.v, in source order per function) the condition the MODEL tests at
-   the corresponding branch of Engine/Ops.v, as a function of the same environment; and the
-   programs of Engine/Ops.v written once more with every data condition replaced by the
-   named condition applied to the environment of that program point ([*_d]).
+(* Decision translator — the Coq side of the table: (1) the conditions the MODEL tests at the
+   branches of Engine/Ops.v, as functions of an environment; (2) for the guarded items of the
+   Go functions (coq/Gen/ActionDecisions.v: returns, calls, appends, field assignments,
+   predicates, each with its path condition) the path condition of the corresponding branch
+   of the model, composed of those conditions, and the assumptions under which the model
+   stands for the Go function; (3) the programs of Engine/Ops.v written once more with every
+   data condition replaced by the named condition applied to the environment of that
+   program point ([*_d]).
    Engine/DecisionsOps.v proves each [*_d] equal to the original (pointwise for programs), so
    a named condition cannot drift away from what Ops.v does.  Definitions only.
    See notes/DEC.md. *)
@@ -62,7 +65,9 @@ Definition c_fail_none (m : menv) : bool := m_n m "len(filtered(NewHistory.Run))
 (* Rollback.prepareRollback: version 0 = the revision before the newest one *)
 Definition c_rb_default (m : menv) : bool := m_n m "opt.Version" =? 0.
 Definition c_rb_same (m : menv) : bool := m_n m "previousVersion" =? m_n m "each(History).version".
-Definition c_rb_missing (m : menv) : bool := negb (m_b m "previousVersionExist").
+Definition c_rb_missing (m : menv) : bool := negb (m_b m "any(History)").
+(* the revision to roll back to, as Go computes it (in int) *)
+Definition v_rb_prev (m : menv) : Z := if c_rb_default m then m_n m "Last.version" - 1 else m_n m "opt.Version".
 
 (* ---- pkg/action/uninstall.go ---- *)
 
@@ -96,6 +101,10 @@ Definition c_content_last (m : menv) : bool := m_n m "arg2" <=? 0.
 
 (* ---- pkg/action/resource_policy.go: filterManifestsToKeep ---- *)
 
+(* no metadata / no annotations at all: nothing to look up *)
+Definition c_keep_none (m : menv) : bool :=
+  m_nil m "each(arg1).head.metadata" || m_nil m "each(arg1).head.metadata.annotations"
+  || (m_n m "len(each(arg1).head.metadata.annotations)" =? 0).
 Definition c_keep_absent (m : menv) : bool :=
   negb (m_b m "has(each(arg1).head.metadata.annotations[helm.sh/resource-policy])").
 Definition c_keep_value (m : menv) : bool :=
@@ -128,102 +137,201 @@ Definition c_is_pending (m : menv) : bool := is_pending (m_s m "recv").
 Definition c_rev_less (m : menv) : bool := m_n m "recv.list[arg1].version" <? m_n m "recv.list[arg2].version".
 
 (* ================================================================== *)
-(* 2. the table: one entry per site of coq/Gen/ActionDecisions.v, same order              *)
+(* 2. the guarded items of the Go functions: the model's path conditions                    *)
 
-Definition sites : list (string * list site) :=
-  [ ("Install.RunWithContext",
-      [ Outside "crds" "the crds/ directory of a chart is not in the model (skeleton: Other installCRDs)";
-        Outside "system-labels" "validation of user labels happens before the modelled part";
-        Outside "output-dir" "rendering and --output-dir are abstracted: the model receives the rendered manifest";
-        Modelled "existing-resources-check" c_inst_check ]);
-    ("Install.performInstall",
-      [ Modelled "create" c_inst_create;
-        Modelled "update-adopted" c_inst_update ]);
-    ("Install.failRelease", []);
-    ("Install.availableName",
-      [ Modelled "name-free" c_avail_free;
-        Modelled "replace-allowed" c_avail_replace ]);
-    ("Install.replaceRelease",
-      [ Modelled "no-history" c_repl_none;
-        Modelled "last-failed" c_repl_failed;
-        Modelled "last-pending" c_repl_pending ]);
-    ("Upgrade.RunWithContext", []);
-    ("Upgrade.prepareUpgrade",
-      [ Outside "chart-nil" "the chart argument is abstracted: the model receives the rendered manifest";
-        Modelled "last-pending" c_up_pending;
-        Modelled "last-deployed" c_up_last_deployed;
-        Modelled "fallback-to-last" c_up_fallback;
-        Outside "system-labels" "validation of user labels: outside the model";
-        Outside "notes" "NOTES.txt rendering is abstracted" ]);
-    ("Upgrade.performUpgrade",
-      [ Outside "to-be-created" "membership of a resource in the current manifest is a map lookup; the model's filter (in_keys) is tied by the correspondence runs of C02/C12" ]);
-    ("Upgrade.releasingUpgrade", []);
-    ("Upgrade.failRelease",
-      [ Modelled "cleanup" c_fail_cleanup;
-        Modelled "previously-successful" c_fail_good;
-        Modelled "none-successful" c_fail_none ]);
-    ("Rollback.Run",
-      [ Outside "still-pending" "the model resolves this test statically: the paths on which the target is still pending-rollback (failed hooks) end in fail_pending, the other failure paths record the failure themselves" ]);
-    ("Rollback.prepareRollback",
-      [ Outside "negative-version" "the model's target version is a natural number";
-        Modelled "default-version" c_rb_default;
-        Modelled "version-found" c_rb_same;
-        Modelled "version-missing" c_rb_missing ]);
-    ("Rollback.performRollback", []);
-    ("Uninstall.Run",
-      [ Modelled "no-history" c_un_none;
-        Modelled "already-uninstalled" c_un_already;
-        Outside "kept-text" "the text listing the kept resources is not in the model";
-        Outside "errors-purge" "the accumulated error list: the model returns the conjunction of the three answers (wait, post-delete hooks, purge)";
-        Outside "errors-keep" "as above (keep-history path)" ]);
-    ("Uninstall.purgeReleases", []);
-    ("Uninstall.deleteRelease",
-      [ Modelled "something-to-delete" c_un_delete ]);
-    ("Configuration.execHook",
-      [ Modelled "event" c_hook_event;
-        Modelled "default-policy" c_hook_default;
-        Outside "reverse-loop" "loop counter of the reverse iteration over the executed hooks (model: List.rev)" ]);
-    ("hookByWeight.Less",
-      [ Modelled "less" c_hook_less ]);
-    ("Configuration.deleteHookByPolicy",
-      [ Modelled "crd" c_hook_crd;
-        Modelled "has-policy" c_hook_policy;
-        Modelled "delete-failed" c_hook_delete_failed ]);
-    ("Configuration.deleteHooksByPolicy", []);
-    ("hookHasDeletePolicy",
-      [ Modelled "match" c_policy_match ]);
-    ("Configuration.outputLogsByPolicy",
-      [ Outside "log-policy" "hook log output is not in the model";
-        Outside "job" "hook log output is not in the model";
-        Outside "pod" "hook log output is not in the model" ]);
-    ("Configuration.releaseContent",
-      [ Modelled "newest" c_content_last ]);
-    ("filterManifestsToKeep",
-      [ Outside "no-annotations" "subsumed by the lookup below: without annotations the policy annotation is absent (the model's fields have no separate annotations map)";
-        Modelled "annotation-absent" c_keep_absent;
-        Modelled "keep" c_keep_value ]);
-    ("requireValue",
-      [ Modelled "missing" c_req_missing;
-        Modelled "differs" c_req_differs ]);
-    ("Storage.Create",
-      [ Modelled "limit" c_create_limit ]);
-    ("Storage.Deployed",
-      [ Modelled "none" c_deployed_none ]);
-    ("Storage.DeployedAll", []);
-    ("Storage.removeLeastRecent",
-      [ Outside "negative-max" "unreachable: Create passes MaxHistory-1 under MaxHistory > 0 (the model's limit is a natural number)";
-        Modelled "fits" c_rlr_fits;
-        Modelled "enough" c_rlr_enough;
-        Modelled "has-deployed" c_rlr_has_deployed;
-        Modelled "other-version" c_rlr_other;
-        Modelled "no-error" c_rlr_no_error;
-        Modelled "one-error" c_rlr_one_error ]);
-    ("Storage.Last",
-      [ Modelled "none" c_last_none ]);
-    ("Status.IsPending",
-      [ Modelled "pending" c_is_pending ]);
-    ("ByRevision.Less",
-      [ Modelled "less" c_rev_less ]) ].
+(* A path condition of the model is the conjunction of the named conditions on the way to
+   the corresponding branch of the twin program of section 4 (read off its text: every `if c
+   … then A else B` contributes c on the way to A and its negation on the way to B). *)
+
+(* ---- Install.RunWithContext: which of the two "does it exist already" checks runs ---- *)
+Definition p_inst_conflict (m : menv) : bool := c_inst_check m && negb (m_flag m "TakeOwnership").
+Definition p_inst_adopt (m : menv) : bool := c_inst_check m && m_flag m "TakeOwnership".
+
+(* ---- Install.performInstall: how the resources reach the cluster ---- *)
+Definition p_inst_create (m : menv) : bool := c_inst_create m.
+Definition p_inst_merge (m : menv) : bool := negb (c_inst_create m) && c_inst_update m && m_flag m "TakeOwnership".
+Definition p_inst_update (m : menv) : bool := negb (c_inst_create m) && c_inst_update m && negb (m_flag m "TakeOwnership").
+
+(* ---- Install.availableName ---- *)
+Definition p_avail_ok (m : menv) : bool := m_flag m "DryRun" || c_avail_free m || c_avail_replace m.
+Definition p_avail_in_use (m : menv) : bool := negb (p_avail_ok m).
+Definition p_avail_reads (m : menv) : bool := negb (m_flag m "DryRun").
+
+(* ---- Install.replaceRelease ---- *)
+Definition p_repl_keep (m : menv) : bool := c_repl_none m || c_repl_failed m.
+Definition p_repl_pending (m : menv) : bool := negb (c_repl_none m) && negb (c_repl_failed m) && c_repl_pending m.
+Definition p_repl_supersede (m : menv) : bool := negb (c_repl_none m) && negb (c_repl_failed m) && negb (c_repl_pending m).
+
+(* ---- Upgrade.prepareUpgrade ---- *)
+Definition p_up_pending (m : menv) : bool := c_up_pending m.
+Definition p_up_ask_deployed (m : menv) : bool := negb (c_up_pending m) && negb (c_up_last_deployed m).
+Definition p_up_no_deployed (m : menv) : bool :=
+  negb (c_up_pending m) && negb (c_up_last_deployed m) && m_err m "Deployed" && negb (c_up_fallback m).
+
+(* ---- Upgrade.failRelease ---- *)
+Definition p_fail_cleanup (m : menv) : bool := c_fail_cleanup m.
+(* the cleanup, if any, succeeded *)
+Definition p_fail_cleaned (m : menv) : bool := negb (c_fail_cleanup m && m_err m "Delete").
+Definition p_fail_no_target (m : menv) : bool := p_fail_cleaned m && m_flag m "Atomic" && c_fail_none m.
+Definition p_fail_rollback (m : menv) : bool := p_fail_cleaned m && m_flag m "Atomic" && negb (c_fail_none m).
+
+(* ---- Rollback.prepareRollback ---- *)
+Definition p_rb_no_release (m : menv) : bool := m_err m "Last".
+Definition p_rb_missing (m : menv) : bool := negb (m_err m "Last") && c_rb_missing m.
+Definition p_rb_get (m : menv) : bool := negb (m_err m "Last") && negb (c_rb_missing m).
+
+(* ---- Uninstall.Run ---- *)
+Definition p_un_none (m : menv) : bool := negb (m_flag m "DryRun") && c_un_none m.
+Definition p_un_already_kept (m : menv) : bool :=
+  negb (m_flag m "DryRun") && negb (c_un_none m) && c_un_already m && m_flag m "KeepHistory".
+Definition p_un_proceed (m : menv) : bool := negb (m_flag m "DryRun") && negb (c_un_none m) && negb (c_un_already m).
+
+(* ---- Uninstall.deleteRelease ---- *)
+Definition p_un_delete_plain (m : menv) : bool := c_un_delete m && negb (m_flag m "is kube.InterfaceDeletionPropagation").
+Definition p_un_delete_prop (m : menv) : bool := c_un_delete m && m_flag m "is kube.InterfaceDeletionPropagation".
+
+(* ---- Configuration.deleteHookByPolicy ---- *)
+Definition p_hook_delete (m : menv) : bool := negb (c_hook_crd m) && c_hook_policy m.
+Definition p_hook_delete_failed (m : menv) : bool := negb (c_hook_crd m) && c_hook_policy m && c_hook_delete_failed m.
+Definition p_hook_wait (m : menv) : bool := negb (c_hook_crd m) && c_hook_policy m && negb (c_hook_delete_failed m).
+
+(* ---- hookHasDeletePolicy ---- *)
+Definition p_policy_found (m : menv) : bool := m_b m "any(arg1.deletePolicies)".
+
+(* ---- filterManifestsToKeep ---- *)
+Definition p_keep (m : menv) : bool := negb (c_keep_none m) && negb (c_keep_absent m) && c_keep_value m.
+Definition p_remaining (m : menv) : bool := negb (p_keep m).
+
+(* ---- requireValue ---- *)
+Definition p_req_ok (m : menv) : bool := negb (c_req_missing m) && negb (c_req_differs m).
+
+(* ---- Storage.removeLeastRecent ---- *)
+Definition p_rlr_prune (m : menv) : bool := negb (c_rlr_fits m).
+Definition p_rlr_stop (m : menv) : bool := negb (c_rlr_fits m) && c_rlr_enough m.
+Definition p_rlr_pick (m : menv) : bool :=
+  negb (c_rlr_fits m) && negb (c_rlr_enough m) && (if c_rlr_has_deployed m then c_rlr_other m else true).
+Definition p_rlr_ok (m : menv) : bool := c_rlr_fits m || c_rlr_no_error m.
+Definition p_rlr_one_error (m : menv) : bool := negb (c_rlr_fits m) && negb (c_rlr_no_error m) && c_rlr_one_error m.
+Definition p_rlr_many_errors (m : menv) : bool := negb (c_rlr_fits m) && negb (c_rlr_no_error m) && negb (c_rlr_one_error m).
+
+Global Hint Unfold
+  c_inst_check c_inst_create c_inst_update c_avail_free c_avail_replace c_repl_none c_repl_failed c_repl_pending
+  c_up_pending c_up_last_deployed c_up_fallback c_fail_cleanup c_fail_good c_fail_none
+  c_rb_default c_rb_same c_rb_missing v_rb_prev c_un_none c_un_already c_un_delete
+  c_hook_event c_hook_default c_hook_less c_hook_crd c_hook_policy c_hook_delete_failed c_policy_match
+  c_content_last c_keep_none c_keep_absent c_keep_value c_req_missing c_req_differs
+  c_create_limit c_deployed_none c_rlr_fits c_rlr_enough c_rlr_has_deployed c_rlr_other c_rlr_no_error c_rlr_one_error
+  c_last_none c_is_pending c_rev_less
+  p_inst_conflict p_inst_adopt p_inst_create p_inst_merge p_inst_update p_avail_ok p_avail_in_use p_avail_reads
+  p_repl_keep p_repl_pending p_repl_supersede p_up_pending p_up_ask_deployed p_up_no_deployed
+  p_fail_cleanup p_fail_cleaned p_fail_no_target p_fail_rollback p_rb_no_release p_rb_missing p_rb_get
+  p_un_none p_un_already_kept p_un_proceed p_un_delete_plain p_un_delete_prop
+  p_hook_delete p_hook_delete_failed p_hook_wait p_policy_found p_keep p_remaining p_req_ok
+  p_rlr_prune p_rlr_stop p_rlr_pick p_rlr_ok p_rlr_one_error p_rlr_many_errors : dec.
+
+Definition no_err (why : string) (l : list string) : list (assumption * string) := map (fun s => (ANoErr s, why)) l.
+
+(* the table: per Go function, the assumptions under which the model stands for it, and the
+   items the model knows with their path conditions.  Items of the Go function that are not
+   listed (logging, rendering, calls of helpers, …) are not compared. *)
+Definition model : list fmodel :=
+  [ mkFn "Install.RunWithContext"
+      (no_err "the model starts after a successful name check, dependency processing, capabilities lookup and rendering: these failures end the operation before anything the model has happens"
+              ["IsReachable"; "availableName"; "ProcessDependencies"; "installCRDs"; "getCapabilities";
+               "ToRenderValuesWithSchemaValidation"; "renderResources"; "Build"; "Build.Visit"] ++
+       [ (AFlag "HideSecret" false, "--hide-secret is not in the model");
+         (AOpaque "ContainsSystemLabels(labels)" false, "validation of user labels happens before the modelled part") ])
+      [ ("call existingResourceConflict", IB p_inst_conflict);
+        ("call requireAdoption", IB p_inst_adopt) ];
+    mkFn "Install.performInstall"
+      (no_err "a failing pre-install hook ends performInstall before the resources are applied (model: run_hooks … install_fail)" ["execHook"])
+      [ ("call KubeClient.Create", IB p_inst_create);
+        ("call KubeClient.UpdateThreeWayMerge", IB p_inst_merge);
+        ("call KubeClient.Update", IB p_inst_update) ];
+    mkFn "Install.availableName"
+      (no_err "release names are valid in the model" ["ValidateReleaseName"])
+      [ ("ret ok", IB p_avail_ok);
+        ("ret new:cannot reuse a name that is still in use", IB p_avail_in_use);
+        ("call Releases.History", IB p_avail_reads) ];
+    mkFn "Install.replaceRelease" []
+      [ ("ret ok", IB p_repl_keep);
+        ("ret errPending", IB p_repl_pending);
+        ("ret call(recordRelease)", IB p_repl_supersede) ];
+    mkFn "Upgrade.prepareUpgrade"
+      [ (ANil "arg2" false, "the chart argument is abstracted: the model receives the rendered manifest");
+        (AFlag "HideSecret" false, "--hide-secret is not in the model");
+        (ANoErr "Last", "Releases.Last fails exactly when there is no revision: Storage.Last, item 'ret new:no revision…'; the model's upgrade answers ENoDeployed there") ]
+      [ ("ret errPending", IB p_up_pending);
+        ("call Releases.Deployed", IB p_up_ask_deployed);
+        ("ret err(Deployed)", IB p_up_no_deployed) ];
+    mkFn "Upgrade.failRelease"
+      (no_err "History.Run only validates the name and reads the history" ["NewHistory.Run"])
+      [ ("call KubeClient.Delete", IB p_fail_cleanup);
+        ("pred filtered(NewHistory.Run)", IB c_fail_good);
+        ("ret err(arg3):unable to find a previously successful release when attempting to rollback. original upgrade error", IB p_fail_no_target);
+        ("call NewRollback.Run", IB p_fail_rollback) ];
+    mkFn "Rollback.prepareRollback"
+      (no_err "release names are valid in the model; the second history read answers like the first" ["ValidateReleaseName"; "History"] ++
+       [ (ANonNeg "opt.Version", "the model's target version is a natural number") ])
+      [ ("ret err(Last)", IB p_rb_no_release);
+        ("pred any(History)", IB c_rb_same);
+        ("val previousVersion", IN v_rb_prev);
+        ("ret new:release has no %d version", IB p_rb_missing);
+        ("call Releases.Get", IB p_rb_get) ];
+    mkFn "Uninstall.Run"
+      (no_err "the cluster is reachable, a waiter exists, names are valid; a failing history read is the empty history of the model"
+              ["IsReachable"; "GetWaiter"; "ValidateReleaseName"; "History"])
+      [ ("ret errMissingRelease", IB p_un_none);
+        ("ret new:the release named %q is already deleted", IB p_un_already_kept);
+        ("set sorted(History)[last].status = uninstalling", IB p_un_proceed) ];
+    mkFn "Uninstall.deleteRelease"
+      (no_err "manifests of the model parse and build" ["SortManifests"; "Build"])
+      [ ("call KubeClient.Delete", IB p_un_delete_plain);
+        ("call kubeClient.DeleteWithPropagationPolicy", IB p_un_delete_prop) ];
+    mkFn "Configuration.execHook" []
+      [ ("append executingHooks each(arg1.hooks)", IB c_hook_event);
+        ("set each(hookByWeight(executingHooks)).deletePolicies", IB c_hook_default) ];
+    mkFn "hookByWeight.Less" []
+      [ ("ret true", IB c_hook_less) ];
+    mkFn "Configuration.deleteHookByPolicy"
+      (no_err "hook manifests of the model build; a waiter exists" ["Build"; "GetWaiter"])
+      [ ("call KubeClient.Delete", IB p_hook_delete);
+        ("ret err(Delete)", IB p_hook_delete_failed);
+        ("call GetWaiter.WaitForDelete", IB p_hook_wait) ];
+    mkFn "hookHasDeletePolicy" []
+      [ ("pred any(arg1.deletePolicies)", IB c_policy_match);
+        ("ret true", IB p_policy_found) ];
+    mkFn "Configuration.releaseContent"
+      (no_err "release names are valid in the model" ["ValidateReleaseName"])
+      [ ("ret call(Releases.Last)", IB c_content_last) ];
+    mkFn "filterManifestsToKeep" []
+      [ ("append keep each(arg1)", IB p_keep);
+        ("append remaining each(arg1)", IB p_remaining) ];
+    mkFn "requireValue" []
+      [ ("ret new:missing key %q: must be set to %q", IB c_req_missing);
+        ("ret ok", IB p_req_ok) ];
+    mkFn "Storage.Create" []
+      [ ("call removeLeastRecent", IB c_create_limit) ];
+    mkFn "Storage.Deployed"
+      (no_err "the label query of the model does not fail" ["DeployedAll"])
+      [ ("ret call(NewErrNoDeployedReleases)", IB c_deployed_none) ];
+    mkFn "Storage.removeLeastRecent"
+      (no_err "a failing history read is the model's empty-history branch (SNotFound); the only error Deployed answers in the model is 'no deployed releases', which the code tolerates"
+              ["History"; "Deployed"] ++
+       [ (ANonNeg "arg2", "Create passes MaxHistory-1 under MaxHistory > 0; the model's limit is a natural number") ])
+      [ ("call Deployed", IB p_rlr_prune);
+        ("break", IB p_rlr_stop);
+        ("append toDelete each(sorted(History))", IB p_rlr_pick);
+        ("ret ok", IB p_rlr_ok);
+        ("ret val(errs[0])", IB p_rlr_one_error);
+        ("ret new:encountered %d deletion errors. First is: %s", IB p_rlr_many_errors) ];
+    mkFn "Storage.Last"
+      (no_err "a failing history read is the empty history of the model" ["History"])
+      [ ("ret new:no revision for release %q", IB c_last_none) ];
+    mkFn "Status.IsPending" []
+      [ ("ret true", IB c_is_pending) ];
+    mkFn "ByRevision.Less" []
+      [ ("ret true", IB c_rev_less) ] ].
 
 (* ================================================================== *)
 (* 3. the environment of a program point                                                  *)
@@ -265,11 +373,14 @@ Definition has_policy_d (h : hook) (p : policy) : bool :=
 (* resource_policy.go *)
 Definition manifest_keep_d (r : res) : bool :=
   let a := aget policy_key (r_fields r) in
-  let m := set_b "has(each(arg1).head.metadata.annotations[helm.sh/resource-policy])"
+  (* the model's fields have no separate annotations map: it is non-nil, and non-empty
+     exactly when the policy annotation is there *)
+  let m := set_n "len(each(arg1).head.metadata.annotations)" (match a with Some _ => 1 | None => 0 end)
+           (set_b "has(each(arg1).head.metadata.annotations[helm.sh/resource-policy])"
                  (match a with Some _ => true | None => false end)
            (set_str "ToLower(TrimSpace(each(arg1).head.metadata.annotations[helm.sh/resource-policy]))"
-                 (match a with Some v => to_lower (trim_space v) | None => "" end) env0) in
-  if c_keep_absent m then false else c_keep_value m.
+                 (match a with Some v => to_lower (trim_space v) | None => "" end) env0)) in
+  if c_keep_none m then false else if c_keep_absent m then false else c_keep_value m.
 
 (* validate.go: requireValue(meta, k, v) = nil *)
 Definition require_value_d (k v : string) (f : fields) : bool :=
@@ -387,7 +498,7 @@ Section OpsD.
         h2 <- perform SHistory ;;
         let found := existsb (fun r => c_rb_same (set_n "previousVersion" (znat prev)
                                                  (set_n "each(History).version" (znat (rev r)) env0))) h2 in
-        if c_rb_missing (set_b "previousVersionExist" found env0) then Ret (OErr EOtherErr) else
+        if c_rb_missing (set_b "any(History)" found env0) then Ret (OErr EOtherErr) else
         p <- perform (SGet prev) ;;
         match p with
         | None => Ret (OErr EOtherErr)
